@@ -16,8 +16,8 @@ Theorem C02_spread : forall n e, name_ok n = true ->
   expand_by_wrapper (render_spread n) e = spread_of (lookup_or_empty e n).
 Proof. exact expand_spread. Qed.
 
-(* outside KF-C02-1/2 (a word of the value begins with a double quote; the value contains #) the
-   re-parse is the list of space-separated words; back-slashes, $, %, braces, TAB, CR, LF are data *)
+(* outside KF-C02-1 (a word of the value begins with a double quote) the re-parse is the list of
+   space-separated words; #, back-slashes, $, %, braces, TAB, CR, LF are data *)
 Theorem C02_words : forall v, known_spread_value v = false ->
   reparse_arguments v = POk (opt_list (words v)).
 Proof. exact reparse_words. Qed.
@@ -53,10 +53,12 @@ Theorem C02_KF1_open_quote_refuted :
   bind_args (env1 w_quote_open) [render_spread s_v] = [[]] /\
   words w_quote_open = [[97]; [34; 98]].
 Proof. exact spread_quote_open_refuted. Qed.
-Theorem C02_KF2_hash_refuted :
-  expand_by_wrapper (render_spread s_v) (env1 w_hash) = Multi [[97]] /\
+(* former KF-C02-2, repaired: a value containing # is in the domain of C02_words; a#b c spreads to [a#b; c] *)
+Theorem C02_hash_example :
+  known_spread_value w_hash = false /\
+  expand_by_wrapper (render_spread s_v) (env1 w_hash) = Multi [[97; 35; 98]; [99]] /\
   words w_hash = [[97; 35; 98]; [99]].
-Proof. exact spread_hash_refuted. Qed.
+Proof. exact spread_hash_example. Qed.
 Theorem C02_KF3_esc_pct_refuted :
   forallb wf_piece_literal t_esc_pct = true /\ known_esc_tmpl t_esc_pct = true /\
   expand_by_wrapper (render_tmpl t_esc_pct) env_empty = Multi [[120]; [121; 36; 123; 97; 37; 98; 125]] /\
